@@ -583,6 +583,51 @@ func runHTTPOnce(c *vlib.Cases, hc httpCfg, mu *sync.Mutex, last bool) bool {
 			}
 		}
 	}
+	// the olla engine's breaker skips the only endpoint that lists the model (it failed often enough, and is healthy
+	// again): whatever the retry loop does about the skip, the request is not handed to an endpoint that does not list
+	// the model — the candidates were fixed by the routing stage
+	if hc.Engine == "olla" {
+		for i, b := range bes {
+			s.SetStatus(b.Name, domain.StatusHealthy)
+			_ = i
+		}
+		body, _ := json.Marshal(map[string]any{"model": "delta", "messages": []map[string]string{{"role": "user", "content": "hi"}}})
+		send := func() *stack.Resp {
+			return stack.Do(s.Addr, stack.Request("POST", "/olla/proxy/v1/chat/completions", s.Addr, [][2]string{{"Content-Type", "application/json"}}, body, false), 3*time.Second)
+		}
+		bes[2].SetBehaviour(stack.Behaviour{Kind: "close0"})
+		primed := 0
+		for i := 0; i < 12; i++ {
+			before := bes[2].Count()
+			send()
+			s.SetStatus(bes[2].Name, domain.StatusHealthy)
+			if bes[2].Count() == before {
+				break
+			}
+			primed++
+		}
+		stray := 0
+		for i, b := range bes {
+			if i != 2 {
+				stray += b.Count()
+			}
+			b.Taken()
+		}
+		bes[2].SetBehaviour(stack.Behaviour{Kind: "ok", Status: 200, Headers: [][2]string{{"Content-Type", "application/json"}}, Body: []byte(`{"ok":true}`)})
+		r := send()
+		var contacted []int
+		for i, b := range bes {
+			if b.Count() > 0 {
+				contacted = append(contacted, i)
+			}
+			b.Taken()
+		}
+		mu.Lock()
+		c.Emit(map[string]any{"kind": "http-breaker", "typ": hc.Typ, "fb": hc.Fb, "rom": hc.Rom, "engine": hc.Engine, "model": "delta", "listers": []int{2},
+			"impl": map[string]any{"primed": primed, "stray_while_priming": stray, "status": r.Status, "contacted": contacted}})
+		c.Count("http.breaker")
+		mu.Unlock()
+	}
 	return true
 }
 
